@@ -140,6 +140,22 @@ def step (st : State) (w : List String) : State × String :=
         let st' := if cacheableFailure c then { st with failed := name :: st.failed } else st
         (st', s!"rcode={r.rcode} ede={match r.ede with | some e => toString e | none => "-"} stub=t")
     | _, _, _, _ => (st, "bad-op")
+  | ["pipe", "alias", id, edns, _client, k, nd] =>
+    match id.toNat?, parseBool edns, parseKind k, nd.toNat? with
+    | some id, some edns, some k, some nd =>
+      let name := 1000 + id
+      if st.failed.contains name then
+        (st, s!"rcode=2 ede={if edns then "13" else "-"} stub=0")
+      else
+        -- the stub answers the alias with a bare CNAME; the cache's own chase resolves the target,
+        -- which spends `nd` units and fails; the decision is taken on the ledger after the chase
+        let ops : List ApiOp := .debit .internal true ::
+          (List.range nd).map fun i => if k.isAggregate then .debit k true else .check k i true
+        let sh := ops.foldl (fun sh op => (apiStep st.pipePol sh op).1) ({} : Shared)
+        let r := servfailReply st.pipePol sh edns (some 0)
+        let st' := if chasedFailureCacheable st.pipePol {} ops false false false then { st with failed := name :: st.failed } else st
+        (st', s!"rcode={r.rcode} ede={match r.ede with | some e => toString e | none => "-"} stub=2")
+    | _, _, _, _ => (st, "bad-op")
   | ["sub", "nest", mode, cap, dflt, maxq] =>
     match parseMode mode, cap.toNat?, dflt.toNat?, maxq.toNat? with
     | some m, some cap, some d, some maxq =>
